@@ -8,6 +8,7 @@ CONSTANTS
   Aslrs = {"on", "off"}
   Perturbs = {"0", "85", "170"}
   Invs = {"rel", "abs"}
+  Decoys = {"no", "yes"}
   MaxWalk = 6
 INVARIANT TypeOK
 PROPERTY ArtifactStable
